@@ -16,7 +16,7 @@ func init() {
 		Explanation: "Decided: (R1) every access to the ring queue's storage and indices is inside the queue's mutex and the length is written atomically under it; " +
 			"(R2) in the handler loop a user pop happens only after the system queue was observed empty, from entry and between any two user pops; " +
 			"(R3) every OnKill / restart message is told with system flag = !Poison and the restart path forwards Poison unchanged; " +
-			"(R4) Unstash re-enqueues stash[0..k) by an ascending traversal and removes exactly that prefix. " +
+			"(R4) Unstash re-enqueues stash[0..k) by an ascending traversal and removes exactly that prefix; (R5) the order of the queue is the order of processing because exactly one elected consumer pops and hands each popped value over synchronously (C01.R1/R5). " +
 			"NOT decided: order preservation of the ring's index arithmetic across growth (needs arithmetic reasoning over head/tail/mod), FIFO under concurrent senders (follows from R1 + mutual exclusion, not proved).",
 		Assumptions: []string{"a lock is identified by its struct field (instance-insensitive)", "sync.Mutex gives mutual exclusion"},
 		Rules: []Rule{
@@ -24,6 +24,7 @@ func init() {
 			{ID: "C02.R2", Min: 1, Desc: "system queue observed empty before every user pop", Fn: c02SystemFirst},
 			{ID: "C02.R3", Min: 3, Desc: "kill/poison: system flag = !Poison at every tell of OnKill / restart message", Fn: c02Poison},
 			{ID: "C02.R4", Min: 2, Desc: "Unstash: ascending prefix traversal, same prefix removed", Fn: c02Unstash},
+			{ID: "C02.R5", Min: 6, Desc: "a single consumer pops and hands over in pop order (C01.R1/R5): two consumers would reorder", Fn: func(p *Program, r *Report) { c01Election(p, r); c01Handoff(p, r) }},
 		},
 	})
 }
